@@ -23,6 +23,9 @@ func init() {
 			pf.Tunes = []int{1, 2, 3, 4, 6, 8, 0}
 			pf.Releaser = 100
 			pf.WarmPct = 35
+			// cancelled jobs are dequeued and skipped: that path must not strand a pool goroutine
+			pf.Cancellers, pf.CancelOps = [2]int{0, 1}, [2]int{1, 4}
+			pf.Cancel = []wop{{opCloseJob, 8}, {opPurge, 1}}
 			return generate(r, pf)
 		},
 		Judge: judgeC18,
